@@ -14,12 +14,20 @@
 #include "upipe-modules/upipe_queue_sink.h"
 #include "upipe-modules/upipe_queue_source.h"
 #include "upipe-ts/upipe_ts_align.h"
+#include "upipe-framers/upipe_auto_framer.h"
 
 /* topologies: head -> P1 -> P2 -> {T0,T1}
  *   0: idem -> idem          1: skip -> setflowdef       2: dup (main output) -> idem
  *   3: idem -> [qsink | qsrc] -> idem  (queue between P1 and P2)
  *   4: ts_align (a bin pipe: helper_bin_input / helper_bin_output around an inner pipe that each
- *      set_flow_def replaces) -> idem */
+ *      set_flow_def replaces) -> idem
+ *   5: auto_framer (a bin pipe that on a new kind of flow first drops its inner pipe, store_bin_input(NULL) /
+ *      store_bin_output(NULL), and then stores the new one; unknown formats get an idem inner pipe) -> idem */
+/* the auto framer's manager looks up every framer; none is needed here (unknown formats get idem) */
+#define NOFRAMER(n) struct upipe_mgr *upipe_##n##_mgr_alloc(void) { return NULL; }
+NOFRAMER(a52f) NOFRAMER(dvbsubf) NOFRAMER(h264f) NOFRAMER(h265f) NOFRAMER(id3v2f)
+NOFRAMER(mpgaf) NOFRAMER(mpgvf) NOFRAMER(opusf) NOFRAMER(s302f) NOFRAMER(telxf)
+
 static int g_topo = 0;
 static int g_pool = 0;
 static int g_nreq = 2;
@@ -116,7 +124,8 @@ enum {
     OP_PROVIDE_T0, OP_PROVIDE_T1,
     OP_PUMP0, OP_PUMP1, OP_PUMP2,
     OP_REL_P2, OP_REL_P1,
-    OP_P1_FLOWDEF, /* topology 4: (re)creates the inner pipe of the bin */
+    OP_P1_FLOWDEF, /* topology 4/5: (re)creates the inner pipe of the bin */
+    OP_P1_FLOWDEF2, /* topology 5: another kind of flow, the inner pipe is dropped and rebuilt */
     NOPS
 };
 
@@ -125,7 +134,7 @@ static void opstr(int op, char *b, size_t n)
     static const char *nm[] = {"register(uref_mgr)", "register(uclock)", "register(sink_latency)", "unregister(uref_mgr)", "unregister(uclock)",
                                "unregister(sink_latency)", "P1.set_output(P2)", "P1.set_output(NULL)", "P2.set_output(T0)", "P2.set_output(T1)",
                                "P2.set_output(NULL)", "T0.provide(first lodged)", "T1.provide(first lodged)", "dispatch(pump 0)", "dispatch(pump 1)",
-                               "dispatch(pump 2)", "release(P2)", "release(P1)", "P1.set_flow_def"};
+                               "dispatch(pump 2)", "release(P2)", "release(P1)", "P1.set_flow_def", "P1.set_flow_def(other kind)"};
     snprintf(b, n, "%s", op >= 0 && op < NOPS ? nm[op] : "?");
 }
 
@@ -177,8 +186,16 @@ static void *init(void)
         st->p1 = upipe_void_alloc(upipe_ts_align_mgr_alloc(), px_probe(fx));
         st->p2 = upipe_void_alloc(upipe_idem_mgr_alloc(), px_probe(fx));
         break;
+    case 5: {
+        struct upipe_mgr *m = upipe_autof_mgr_alloc();
+        assert(m);
+        st->p1 = upipe_void_alloc(m, px_probe(fx));
+        upipe_mgr_release(m);
+        st->p2 = upipe_void_alloc(upipe_idem_mgr_alloc(), px_probe(fx));
+        break;
     }
-    st->p1_inner = g_topo != 4;
+    }
+    st->p1_inner = g_topo < 4;
     assert(st->p1 && st->p2);
     pxm_pause();
     return st;
@@ -202,7 +219,9 @@ static bool enabled_cb(void *vst, int op)
     if (op == OP_PROVIDE_T1)
         return st->fx.sinks[1].nreqs > 0;
     if (op == OP_P1_FLOWDEF)
-        return g_topo == 4;
+        return g_topo >= 4;
+    if (op == OP_P1_FLOWDEF2)
+        return g_topo == 5;
     if (op >= OP_PUMP0 && op <= OP_PUMP2) {
         if (g_topo != 3)
             return false;
@@ -382,8 +401,8 @@ static int apply(void *vst, int op, bool check)
         do_provide(st, op - OP_PROVIDE_T0);
     } else if (op >= OP_PUMP0 && op <= OP_PUMP2) {
         dispatch(st, op - OP_PUMP0);
-    } else if (op == OP_P1_FLOWDEF) {
-        struct uref *f = px_flow(fx, "block.", 1);
+    } else if (op == OP_P1_FLOWDEF || op == OP_P1_FLOWDEF2) {
+        struct uref *f = px_flow(fx, op == OP_P1_FLOWDEF ? "block." : "block.unframed.", 1);
         ubase_assert(upipe_set_flow_def(st->p1, f));
         uref_free(f);
         st->p1_inner = true;
